@@ -255,6 +255,36 @@ func runSess(cfg *config) {
 			}, nil)
 		}
 	}
+	// scripted: statements long enough to overlap several ticks of the flush timer must return
+	run(func(d *sdrv, r *hx.Rng) {
+		d.exec("CREATE DATABASE big")
+		d.exec("USE big")
+		d.exec("CREATE TABLE t1 (a int, b varchar(255))")
+		for part := 0; part < 2; part++ {
+			var vs []string
+			for k := 0; k < 700; k++ {
+				vs = append(vs, fmt.Sprintf("(%d, 'row %d')", part*700+k, k))
+			}
+			d.exec("INSERT INTO t1 VALUES " + strings.Join(vs, ", "))
+		}
+		d.exec("UPDATE t1 SET b = 'x'")
+		d.exec("UPDATE t1 SET b = 'y' WHERE a >= 0")
+		d.exec("DELETE FROM t1 WHERE a >= 100")
+		d.exec("UPDATE t1 SET b = 'z'")
+	}, nil)
+	// scripted: database names that differ only by characters Unicode case folding identifies
+	// (final and medial sigma, long s) are different databases
+	run(func(d *sdrv, r *hx.Rng) {
+		for _, n := range []string{"\"οδοσ\"", "\"οδος\"", "\"mass\"", "\"maſs\""} {
+			d.exec("CREATE DATABASE " + n)
+		}
+		d.exec("SHOW DATABASES")
+		for i, n := range []string{"\"οδοσ\"", "\"οδος\"", "\"mass\"", "\"maſs\"", "\"οδοσ\"", "\"maſs\""} {
+			d.exec("USE " + n)
+			d.exec("CREATE TABLE t1 (a int, b varchar(255))")
+			d.exec(fmt.Sprintf("INSERT INTO t1 VALUES (%d, 'in %d')", i, i))
+		}
+	}, nil)
 	n := 6 * cfg.scale
 	for i := 0; i < n; i++ {
 		run(func(d *sdrv, r *hx.Rng) {
